@@ -177,7 +177,9 @@ Inductive ccrit :=
 | CS (s : sx)                (* criterion on C.y *)
 | CHas (s : sx)              (* C.parent.has(crit on P.x) *)
 | CAnd (a b : ccrit) | COr (a b : ccrit) | CNot (a : ccrit).
-Inductive target := TgC | TgAlias | TgSub.          (* P.children | .of_type(aliased(C)) | .of_type(Sub) *)
+Inductive target := TgC | TgAlias | TgSub | TgSubOn.
+(* join(P.children) | join(P.children.of_type(aliased(C))) | join(P.children.of_type(Sub))
+   | join(Sub, P.id == Sub.pid): hand-written ON clause, _ORMJoin adds the single-table criterion of the target *)
 Inductive colmode := BothEnt | EntCol | ColEnt.     (* select(P, T) | select(P, T.y) | select(P.x, T) *)
 Inductive oq :=
 | QP (c : pcrit)                                          (* select(P).where(c) *)
@@ -229,7 +231,7 @@ Fixpoint tr_ccrit (ca : nat) (c : ccrit) : bx :=
   end.
 
 Definition on_pc (t : target) : bx :=
-  match t with TgSub => BAnd (pj 0 1) (sub_crit 1) | _ => pj 0 1 end.
+  match t with TgSub | TgSubOn => BAnd (pj 0 1) (sub_crit 1) | _ => pj 0 1 end.
 Definition cols_pc (m : colmode) : list ex :=
   match m with
   | BothEnt => [ECol 0 ColId; ECol 1 ColId]
@@ -369,7 +371,7 @@ Fixpoint ceval (d : db) (c : crow) (k : ccrit) : tv :=
   | CNot a => not3 (ceval d c a)
   end.
 
-Definition tgt_ok (t : target) (c : crow) : bool := match t with TgSub => is_sub c | _ => true end.
+Definition tgt_ok (t : target) (c : crow) : bool := match t with TgSub | TgSubOn => is_sub c | _ => true end.
 Definition oc_id (c : option crow) : val := match c with Some c => Some (c_id c) | None => None end.
 Definition oc_y (c : option crow) : val := match c with Some c => c_y c | None => None end.
 Definition op_id (p : option prow) : val := match p with Some p => Some (p_id p) | None => None end.
